@@ -794,7 +794,7 @@ func TestVerifC05KDF(t *testing.T) {
 	})
 }
 
-// FuzzOpen: native fuzz target (compiled by ./check, run with go test -fuzz on demand).
+// FuzzOpen: native fuzz target, run by ./check in the thorough tier (conf/C05.json "fuzz").
 // Oracle: Open returns a plaintext  <=>  key valid, nonce non-zero and the reference
 // Poly1305-AES tag verifies; the plaintext then equals the reference CTR decryption.
 func FuzzOpen(f *testing.F) {
